@@ -143,10 +143,11 @@ Fixpoint run_ops (s : cstate) (ops : list emcy_op) : list val :=
   | OReset :: r => let s' := consumer_reset s in state_val s' :: run_ops s' r
   end.
 
-Inductive wake_case := KTimeout | KNew (frames : list (list Z * Z)).
+(* KLate: the clock has passed the deadline before these frames are logged *)
+Inductive wake_case := KTimeout | KNew (frames : list (list Z * Z)) | KLate (frames : list (list Z * Z)).
 
 Definition wake_of (k : wake_case) : wake :=
-  match k with KTimeout => WTimeout | KNew fs => WNew (decoded fs) false end.
+  match k with KTimeout => WTimeout | KNew fs => WNew (decoded fs) false | KLate fs => WNew (decoded fs) true end.
 
 Inductive emcy_case :=
 | CHist (ncb : Z) (ops : list emcy_op)
